@@ -176,6 +176,20 @@ func (s *c12s) scripted() {
 	}
 	// the issue tx signed before the previous block (expiration = its creation time + 600 s: still valid)
 	s.runBlock([]*c12Tx{fut})
+	if s.stop {
+		return
+	}
+	// --- blocks K, L: a frozen asset moves: 50 X parked under T's id in account 5... (account 5 already holds T, so use
+	//     the fresh id of asset C: account 6 holds nothing under idC) ; X is frozen ; a holder of C sends 10 to account 6
+	s.runBlock([]*c12Tx{s.txReplenish(4, 6, cX, idC, "s:50", "replenish:foreign-id-then-freeze")})
+	if s.stop {
+		return
+	}
+	s.runBlock([]*c12Tx{s.txModify(4, cX, "true", "modify:freeze-attacker-asset")})
+	if s.stop {
+		return
+	}
+	s.runBlock([]*c12Tx{s.txTransferA(4, 6, idC, "s:10", "transfer:into-frozen-foreign-entry")})
 }
 
 // ---- random blocks ---------------------------------------------------------------------------
@@ -216,12 +230,12 @@ func (s *c12s) createdAssets() []*c12Asset {
 	return out
 }
 
-// heldIDs: (holder, id) pairs with positive equity in the last dump
-func (s *c12s) held() [][2]int {
+// held: (holder, id) pairs with positive equity in the last dump; spendable = the holder also has the AssetIdState
+func (s *c12s) held(spendable bool) [][2]int {
 	var out [][2]int
 	for al := range s.addrs {
 		for hlab := range s.hashes {
-			if e, ok := s.prev.eq[[2]int{al, hlab}]; ok && e.amt.Sign() > 0 {
+			if e, ok := s.prev.eq[[2]int{al, hlab}]; ok && e.amt.Sign() > 0 && (!spendable || e.idst) {
 				out = append(out, [2]int{al, hlab})
 			}
 		}
@@ -234,7 +248,10 @@ func (s *c12s) randomBlock() {
 	nt := 1 + r.Intn(6)
 	var cands []*c12Tx
 	as := s.createdAssets()
-	held := s.held()
+	held := s.held(true)
+	if len(held) == 0 || r.Intn(6) == 0 {
+		held = s.held(false)
+	}
 	user := func() int { return 1 + r.Intn(s.nUsers) }
 	anyAddr := func() int {
 		switch r.Intn(8) {
@@ -253,7 +270,7 @@ func (s *c12s) randomBlock() {
 			div := cat == 1 || (cat == 3 && r.Intn(2) == 0)
 			repl := r.Intn(3) > 0
 			dec := uint32(r.Intn(19))
-			fz := []string{"-", "-", "false", "true", "yes"}[r.Intn(5)]
+			fz := []string{"-", "-", "-", "false", "false", "true", "yes"}[r.Intn(7)]
 			if r.Intn(8) == 0 { // invalid shapes
 				cat = uint32(r.Intn(6))
 				div = r.Intn(2) == 0
@@ -268,7 +285,10 @@ func (s *c12s) randomBlock() {
 				from = user()
 				class = "rnd:issue-any-sender"
 			}
-			meta := r.Intn(20)
+			meta := 1 + r.Intn(20)
+			if r.Intn(10) == 0 {
+				meta = 0
+			}
 			if r.Intn(25) == 0 {
 				meta = 250 + r.Intn(12)
 			}
@@ -299,7 +319,7 @@ func (s *c12s) randomBlock() {
 				from = user()
 				class = "rnd:modify-any-sender"
 			}
-			fz := []string{"true", "true", "false", "false", "-", "none", "TRUE", "1", ""}[r.Intn(9)]
+			fz := []string{"true", "false", "false", "false", "-", "none", "TRUE", "1", ""}[r.Intn(9)]
 			cands = append(cands, s.txModify(from, s.hashes[a.code], fz, class))
 		default:
 			class := "rnd:transfer"
